@@ -391,7 +391,7 @@ class Interp:
             else:
                 a = a if a is not None else self.lookup_default(k, frame)
                 b = b if b is not None else self.lookup_default(k, frame)
-                merged[k] = ("ifexp", c, b, a) if flip else ("ifexp", c, a, b)
+                merged[k] = mk_ifexp(c, b, a) if flip else mk_ifexp(c, a, b)
         frame.env = merged
         # conditions established INSIDE both branches beyond the test are not common: keep the prefix
         return _State(st.conds, st.loops)
@@ -568,7 +568,7 @@ class Interp:
             frame.env = dict(env0)
             for k, v in env_body.items():
                 if env0.get(k) != v:
-                    frame.env[k] = ("ifexp", ("name", "<raised-before>"), env0.get(k, ("unbound", k)), v)
+                    frame.env[k] = mk_ifexp(("name", "<raised-before>"), env0.get(k, ("unbound", k)), v)
             typ = self.eval(h.type, frame, st) if h.type is not None else ("name", "BaseException")
             hs = st.with_cond(("call", ("name", "<except>"), (typ, const(s.lineno)), ()), True)
             if h.name:
@@ -683,7 +683,7 @@ class Interp:
             b, flip = strip_not(c)
             a = self.eval(n.body, frame, st.with_cond(b, not flip))
             o = self.eval(n.orelse, frame, st.with_cond(b, flip))
-            return ("ifexp", b, o, a) if flip else ("ifexp", b, a, o)
+            return mk_ifexp(b, o, a) if flip else mk_ifexp(b, a, o)
         if isinstance(n, ast.Tuple):
             return ("tuple", self._elts(n.elts, frame, st))
         if isinstance(n, ast.List):
@@ -968,7 +968,7 @@ class Interp:
                 out = t
                 continue
             c = conj(conds)
-            out = ("ifexp", c, t, out)
+            out = mk_ifexp(c, t, out)
         return out
 
 
@@ -1032,6 +1032,14 @@ def _const_expr(d: ast.AST) -> Term:
     if isinstance(d, ast.Tuple):
         return ("tuple", tuple(_const_expr(e) for e in d.elts))
     return ("name", "<default:" + ast.unparse(d) + ">")
+
+
+def mk_ifexp(c: Term, a: Term, b: Term) -> Term:
+    """(a if c else b) with the test in positive form (a negated test swaps the arms)."""
+    base, flip = strip_not(c)
+    if a == b:
+        return a
+    return ("ifexp", base, b, a) if flip else ("ifexp", base, a, b)
 
 
 def strip_not(t: Term) -> Tuple[Term, bool]:
@@ -1417,6 +1425,36 @@ def reduce_ifexp(t: Term, atoms: Dict[Term, bool]) -> Term:
 
 def show_conds(conds: Sequence[Cond], interp: Optional[Interp] = None) -> str:
     return " and ".join(("" if pol else "not ") + show(c, interp) for c, pol in conds) or "always"
+
+
+def single_element(interp: Interp, obj: Term):
+    """(loops inside the object's scope, extra conditions, value term) when `obj` receives exactly ONE element per iteration:
+    one fill site, or two fill sites under complementary conditions (if c: xs.append(a) else: xs.append(b) -> a if c else b).
+    None otherwise."""
+    if obj[0] != "obj":
+        return None
+    o = interp.objs[obj[1]]
+    if o.init:
+        return None
+    els = elements(interp, obj)
+
+    def val(e):
+        return e.value if e.kind == "elem" else (e.term[2][0] if e.kind == "call" and len(e.term[2]) == 1 and e.term[1][2] in ("append", "add") else None)
+    if len(els) == 1:
+        e = els[0]
+        if val(e) is None:
+            return None
+        return tuple(L for L in e.loops if L not in o.loops), tuple(e.conds[len(o.conds):]), val(e), e
+    if len(els) == 2:
+        a, b = els
+        if a.loops != b.loops or val(a) is None or val(b) is None or len(a.conds) != len(b.conds) or not a.conds:
+            return None
+        if a.conds[:-1] != b.conds[:-1] or a.conds[-1][0] != b.conds[-1][0] or a.conds[-1][1] == b.conds[-1][1]:
+            return None
+        c, pol = a.conds[-1]
+        v = mk_ifexp(c, val(a), val(b)) if pol else mk_ifexp(c, val(b), val(a))
+        return tuple(L for L in a.loops if L not in o.loops), tuple(a.conds[len(o.conds):-1]), v, a
+    return None
 
 
 def elements(interp: Interp, obj: Term) -> List[Event]:
